@@ -1391,6 +1391,7 @@ func worker(sh *ev.Shard, prop string) {
 					w.nontr++
 				}
 				w.decodedValues(t, c.ID, c.Msg)
+				w.c04NilShapes(t, c.ID, c.Msg)
 			case "C05":
 				w.checkC05(t, c.ID, c.Msg)
 				w.c05Unknowns(t, c.ID, c.Msg)
